@@ -176,3 +176,16 @@ def bech32_self_referential(hrp: str, version: int, nbytes: int, const: int, fil
         body = addr[len(hrp) + 1:]
         if body[:-6].find(body[-6:]) >= 0 and B.is_valid_segwit(addr) == (const == (1 if version == 0 else B.BECH32M_CONST if hasattr(B, "BECH32M_CONST") else const)):
             yield w, addr
+
+
+@functools.lru_cache(maxsize=None)
+def twin_secret_keys(n: int):
+    """pairs of distinct valid 32-byte secret keys (as ints < n) that a too-coarse memo key cannot tell apart: CPython hash()
+    twins (k and k + 2^61-1), and pairs whose SHA-256 / double-SHA-256 fingerprints agree in the first 4 bytes (found by a
+    deterministic birthday search over consecutive keys)."""
+    base = int.from_bytes(hashlib.sha256(b"vf-twin-base").digest(), "big") % (n >> 1) + (1 << 200)
+    pairs = [("python-hash", base, python_hash_twins(base)[0])]
+    for name, dg in (("sha256[:4]", lambda b: hashlib.sha256(b).digest()), ("hash256[:4]", h256)):
+        a, b = truncated_digest_collision(lambda i: (base + i).to_bytes(32, "big"), digest=dg)
+        pairs.append((name, int.from_bytes(a, "big"), int.from_bytes(b, "big")))
+    return pairs
